@@ -23,10 +23,22 @@ fn idx<T>(base: &[T], p: Option<&T>) -> String {
 }
 fn oi(o: Option<usize>) -> String { o.map(|v| v.to_string()).unwrap_or("-".into()) }
 
+/// Candidates are `(&PaMap, TiebreakerInfo)`: callers may hand in routes that reference ONE attribute
+/// map (a RIB that interns attribute sets) or equal maps in separate allocations.  Both presentations
+/// are run; when they agree the reply is the common one, otherwise both are reported.
 fn sel<OS: OrdStrat + Copy>(specs: &[RouteSpec], perms: bool) -> String {
     let built: Vec<(PaMap, TiebreakerInfo)> = specs.iter().map(build).collect();
     if built.iter().any(|(m, t)| refusal::<OS>(m, *t) != "ok") { return "refused".into(); }
-    let rs: Vec<OrdRoute<OS>> = built.iter().map(|(m, t)| OrdRoute::try_new(m, *t).unwrap()).collect();
+    let own: Vec<&PaMap> = built.iter().map(|(m, _)| m).collect();
+    // interned: the first map with equal content stands in for every later one
+    let shared: Vec<&PaMap> = built.iter().map(|(m, _)| &built.iter().find(|(o, _)| o == m).unwrap().0).collect();
+    let a = sel_on::<OS>(&built, &own, perms);
+    let b = sel_on::<OS>(&built, &shared, perms);
+    if a == b { a } else { format!("{} | shared {}", a, b) }
+}
+
+fn sel_on<OS: OrdStrat + Copy>(built: &[(PaMap, TiebreakerInfo)], maps: &[&PaMap], perms: bool) -> String {
+    let rs: Vec<OrdRoute<OS>> = built.iter().zip(maps).map(|((_, t), m)| OrdRoute::try_new(*m, *t).unwrap()).collect();
     if !perms {
         let (pb, pk) = best_backup_position(rs.iter());
         let (vb, vk) = best_backup(rs.iter());
@@ -101,6 +113,75 @@ fn judge(rs: &[RouteSpec], med: bool, b: usize, k: Option<usize>) -> Result<(), 
         }
     }
     Ok(())
+}
+
+/// the statement of C11 on one reply (one way of presenting the candidates)
+fn judge_reply(op: &str, s: &str, rs: &[RouteSpec], reply: &str) -> Result<(), String> {
+    let (op, s) = (&op, &s);
+    let all_el = rs.iter().all(ref_eligible);
+    if reply == "refused" { return if all_el { Err("eligible routes refused".into()) } else { Ok(()) }; }
+    if !all_el { return Err("an ineligible route reached selection".into()); }
+    let med = *s == "rfc4271";
+    // without a weak order on these candidates the statement has no model (Thm/C11 rfc4271_cycle_no_best)
+    if !ref_weak_order(&rs, med) { return Ok(()); }
+    if *op == "sel" {
+        let f: Vec<&str> = reply.split(' ').collect();
+        if f.len() < 4 { return Err(format!("unexpected reply {}", reply)); }
+        let pos = pair(f[0].strip_prefix("pos=").ok_or("reply")?).ok_or("reply")?;
+        let val = pair(f[1].strip_prefix("val=").ok_or("reply")?).ok_or("reply")?;
+        let single = f[2].strip_prefix("best=").ok_or("reply")?;
+        let gen = pair(f[3].strip_prefix("gen=").ok_or("reply")?).ok_or("reply")?;
+        if rs.is_empty() {
+            return if reply == "pos=-,- val=-,- best=- gen=-,-" { Ok(()) } else { Err("empty input must give nothing".into()) };
+        }
+        let b = pos.0.ok_or("no best for a non-empty collection")?;
+        // "positions agree with values", "the best is the route best() returns": judged on route content
+        let same = |x: Option<usize>, y: Option<usize>| match (x, y) {
+            (None, None) => true,
+            (Some(x), Some(y)) => x < rs.len() && y < rs.len() && rs[x] == rs[y],
+            _ => false,
+        };
+        if !same(pos.0, val.0) || !same(pos.1, val.1) { return Err("best_backup and best_backup_position disagree".into()); }
+        if f.len() > 4 { return Err("best_backup by value and by reference pick routes of different content".into()); }
+        let sb: Option<usize> = single.parse().ok();
+        if !same(sb, Some(b)) { return Err(format!("best() returns {} but best_backup's best is {}", single, b)); }
+        if pos.1.map_or(false, |k| k >= rs.len()) { return Err("backup position out of range".into()); }
+        judge(&rs, med, b, pos.1)?;
+        // the generic helper: given pairwise distinct items (no two tie) it returns the two smallest in order
+        let distinct = (0..rs.len()).all(|i| (0..i).all(|j| rfc_prefer(&rs[i], &rs[j], med) != Ordering::Equal));
+        if distinct {
+            let gb = gen.0.ok_or("generic: no best")?;
+            if gb != b { return Err("generic helper's best differs".into()); }
+            for c in 0..rs.len() { if rfc_prefer(&rs[c], &rs[gb], med) == Ordering::Less { return Err("generic: best is not the smallest".into()); } }
+            match gen.1 {
+                None => if rs.len() > 1 { return Err("generic: no backup for >= 2 distinct items".into()); },
+                Some(gk) => {
+                    if gk == gb { return Err("generic: backup is the best".into()); }
+                    for c in 0..rs.len() { if c != gb && rfc_prefer(&rs[c], &rs[gk], med) == Ordering::Less { return Err("generic: backup is not the second smallest".into()); } }
+                }
+            }
+        }
+        Ok(())
+    } else {
+        if rs.is_empty() { return if reply == "none" { Ok(()) } else { Err("empty".into()) }; }
+        let mut classes: Vec<Option<usize>> = Vec::new();
+        for p in reply.split(' ') {
+            let (b, k) = pair(p).ok_or("reply")?;
+            let b = b.ok_or("reply")?;
+            judge(&rs, med, b, k).map_err(|e| format!("in some presentation order: best={} backup={:?}: {}", b, k, e))?;
+            classes.push(k);
+        }
+        // order independence of the backup's preference class
+        for x in &classes { for y in &classes {
+            match (x, y) {
+                (Some(x), Some(y)) => if rfc_prefer(&rs[*x], &rs[*y], med) != Ordering::Equal {
+                    return Err(format!("backup depends on presentation order: candidates {} and {} are not equally preferred", x, y)); },
+                (None, None) => {}
+                _ => return Err("backup present in one presentation order and absent in another".into()),
+            }
+        } }
+        Ok(())
+    }
 }
 
 fn pair(s: &str) -> Option<(Option<usize>, Option<usize>)> {
@@ -241,70 +322,11 @@ impl Prop for C11 {
         match w.as_slice() {
             [op @ ("sel" | "selperm"), s, rest @ ..] => {
                 let rs: Vec<RouteSpec> = rest.iter().map(|r| parse_route(r).unwrap()).collect();
-                let all_el = rs.iter().all(ref_eligible);
-                if reply == "refused" { return if all_el { Err("eligible routes refused".into()) } else { Ok(()) }; }
-                if !all_el { return Err("an ineligible route reached selection".into()); }
-                let med = *s == "rfc4271";
-                // without a weak order on these candidates the statement has no model (Thm/C11 rfc4271_cycle_no_best)
-                if !ref_weak_order(&rs, med) { return Ok(()); }
-                if *op == "sel" {
-                    let f: Vec<&str> = reply.split(' ').collect();
-                    if f.len() < 4 { return Err(format!("unexpected reply {}", reply)); }
-                    let pos = pair(f[0].strip_prefix("pos=").ok_or("reply")?).ok_or("reply")?;
-                    let val = pair(f[1].strip_prefix("val=").ok_or("reply")?).ok_or("reply")?;
-                    let single = f[2].strip_prefix("best=").ok_or("reply")?;
-                    let gen = pair(f[3].strip_prefix("gen=").ok_or("reply")?).ok_or("reply")?;
-                    if rs.is_empty() {
-                        return if reply == "pos=-,- val=-,- best=- gen=-,-" { Ok(()) } else { Err("empty input must give nothing".into()) };
-                    }
-                    let b = pos.0.ok_or("no best for a non-empty collection")?;
-                    // "positions agree with values", "the best is the route best() returns": judged on route content
-                    let same = |x: Option<usize>, y: Option<usize>| match (x, y) {
-                        (None, None) => true,
-                        (Some(x), Some(y)) => x < rs.len() && y < rs.len() && rs[x] == rs[y],
-                        _ => false,
-                    };
-                    if !same(pos.0, val.0) || !same(pos.1, val.1) { return Err("best_backup and best_backup_position disagree".into()); }
-                    if f.len() > 4 { return Err("best_backup by value and by reference pick routes of different content".into()); }
-                    let sb: Option<usize> = single.parse().ok();
-                    if !same(sb, Some(b)) { return Err(format!("best() returns {} but best_backup's best is {}", single, b)); }
-                    if pos.1.map_or(false, |k| k >= rs.len()) { return Err("backup position out of range".into()); }
-                    judge(&rs, med, b, pos.1)?;
-                    // the generic helper: given pairwise distinct items (no two tie) it returns the two smallest in order
-                    let distinct = (0..rs.len()).all(|i| (0..i).all(|j| rfc_prefer(&rs[i], &rs[j], med) != Ordering::Equal));
-                    if distinct {
-                        let gb = gen.0.ok_or("generic: no best")?;
-                        if gb != b { return Err("generic helper's best differs".into()); }
-                        for c in 0..rs.len() { if rfc_prefer(&rs[c], &rs[gb], med) == Ordering::Less { return Err("generic: best is not the smallest".into()); } }
-                        match gen.1 {
-                            None => if rs.len() > 1 { return Err("generic: no backup for >= 2 distinct items".into()); },
-                            Some(gk) => {
-                                if gk == gb { return Err("generic: backup is the best".into()); }
-                                for c in 0..rs.len() { if c != gb && rfc_prefer(&rs[c], &rs[gk], med) == Ordering::Less { return Err("generic: backup is not the second smallest".into()); } }
-                            }
-                        }
-                    }
-                    Ok(())
-                } else {
-                    if rs.is_empty() { return if reply == "none" { Ok(()) } else { Err("empty".into()) }; }
-                    let mut classes: Vec<Option<usize>> = Vec::new();
-                    for p in reply.split(' ') {
-                        let (b, k) = pair(p).ok_or("reply")?;
-                        let b = b.ok_or("reply")?;
-                        judge(&rs, med, b, k).map_err(|e| format!("in some presentation order: best={} backup={:?}: {}", b, k, e))?;
-                        classes.push(k);
-                    }
-                    // order independence of the backup's preference class
-                    for x in &classes { for y in &classes {
-                        match (x, y) {
-                            (Some(x), Some(y)) => if rfc_prefer(&rs[*x], &rs[*y], med) != Ordering::Equal {
-                                return Err(format!("backup depends on presentation order: candidates {} and {} are not equally preferred", x, y)); },
-                            (None, None) => {}
-                            _ => return Err("backup present in one presentation order and absent in another".into()),
-                        }
-                    } }
-                    Ok(())
+                // the same candidates presented with separate and with shared attribute maps
+                for (i, part) in reply.split(" | shared ").enumerate() {
+                    judge_reply(op, s, &rs, part).map_err(|e| if i == 0 { e } else { format!("when candidates with equal attributes share one PaMap object: {}", e) })?;
                 }
+                Ok(())
             }
             ["gen", rest @ ..] => {
                 let xs: Vec<u32> = rest.iter().map(|x| x.parse().unwrap()).collect();
